@@ -36,8 +36,11 @@ CONSTANT CheckAttrs
 VARIABLES l,      \* next line of Tr
           div,    \* lines at which the real code left the specification
           pols,   \* the live policies of the session: policy id -> policy
-          wfail   \* a destination write of the current call has failed
-tvars == <<pol, st, inp, out, l, div, pols, wfail>>
+          wfail,  \* a destination write of the current call has failed
+          last    \* the last tag whose attributes went through sanitizeAttrs: [n, as, res] (n = "" if none yet)
+tvars == <<pol, st, inp, out, l, div, pols, wfail, last>>
+
+NoTag == [n |-> "", as |-> <<>>, res |-> <<>>]
 
 StOf(e) == [skip |-> e.skip, cnt |-> e.cnt, stack |-> e.stack, mrst |-> e.mrst]
 
@@ -51,14 +54,14 @@ Resync(i) == IF i > Len(Tr) THEN i
              ELSE IF Tr[i].ev \in {"call", "reset", "build"} THEN i
              ELSE Resync(i + 1)
 
-TraceInit == pol = Blank /\ st = St0 /\ inp = <<>> /\ out = <<>> /\ l = 1 /\ div = <<>> /\ pols = <<>> /\ wfail = FALSE
+TraceInit == pol = Blank /\ st = St0 /\ inp = <<>> /\ out = <<>> /\ l = 1 /\ div = <<>> /\ pols = <<>> /\ wfail = FALSE /\ last = NoTag
 
 Diverge == /\ div' = Append(div, l)
            /\ l' = Resync(l + 1)
-           /\ UNCHANGED <<pol, st, inp, out, pols>> /\ wfail' = FALSE
+           /\ UNCHANGED <<pol, st, inp, out, pols>> /\ wfail' = FALSE /\ last' = NoTag
 
 OnReset(e) == /\ pol' = Blank /\ st' = St0 /\ inp' = <<>> /\ out' = <<>> /\ pols' = <<>>
-              /\ l' = l + 1 /\ UNCHANGED div /\ wfail' = FALSE
+              /\ l' = l + 1 /\ UNCHANGED div /\ wfail' = FALSE /\ last' = NoTag
 
 \* a builder call on policy e.pid returned; e.snap is its snapshot, e.others the snapshots of the other
 \* live policies of the session (which the call must not have touched)
@@ -69,11 +72,11 @@ OnBuild(e) ==
       othersOK == \A k \in DOMAIN e.others : e.others[k].pid \in DOMAIN pols /\ PolOfJson(e.others[k].snap) = pols[e.others[k].pid]
   IN  /\ pols' = Put(pols, e.pid, real)          \* on a mismatch continue with the real policy
       /\ div' = IF p2 = real /\ othersOK THEN div ELSE Append(div, l)
-      /\ l' = l + 1 /\ UNCHANGED <<pol, st, inp, out, wfail>>
+      /\ l' = l + 1 /\ UNCHANGED <<pol, st, inp, out, wfail, last>>
 
 OnCall(e) == /\ pol' = InitP(pols[e.pid]) /\ pols' = Put(pols, e.pid, InitP(pols[e.pid]))
              /\ st' = St0 /\ inp' = <<>> /\ out' = <<>>
-             /\ l' = l + 1 /\ UNCHANGED div /\ wfail' = FALSE
+             /\ l' = l + 1 /\ UNCHANGED div /\ wfail' = FALSE /\ last' = NoTag
 
 TokGood(e) ==
   LET after == IF e.called THEN e.after ELSE <<>>
@@ -92,13 +95,14 @@ OnTok(e) ==
            /\ inp' = Append(inp, e.tok)
            /\ out' = out \o EmitB(pol, e.tok, after, b)
            /\ wfail' = e.werr                   \* the last write of this step failed (BM_IO: status "werr")
+           /\ last' = IF e.called THEN [n |-> e.tok.n, as |-> e.tok.a, res |-> e.after] ELSE last
            /\ l' = l + 1 /\ UNCHANGED <<pol, div, pols>>
   ELSE Diverge
 
 OnRet(e) ==
   \* the call reports an error exactly when a write failed or the source failed (BM_IO: FailReported)
   IF st = StOf(e) /\ ~e.panic /\ e.ended /\ (e.err = (wfail \/ e.rerr))
-  THEN l' = l + 1 /\ UNCHANGED <<pol, st, inp, out, div, pols, wfail>>
+  THEN l' = l + 1 /\ UNCHANGED <<pol, st, inp, out, div, pols, wfail, last>>
   ELSE Diverge
 
 TraceNext ==
@@ -120,4 +124,20 @@ TI01 == I01(pol, out)
 TI05 == I05(pol, out)
 TI02bare == I02bare(pol, out)
 TStack == StackInv(pol, st)
+
+\* whole-call properties on the real execution so far (they need the complete fact tables: CheckAttrs runs)
+TI06 == CheckAttrs => I06(pol, inp, out)
+TI07 == CheckAttrs => I07(pol, inp, out)
+TI08 == CheckAttrs => I08(pol, inp, out)
+TI09 == CheckAttrs => I09(pol, inp, out)
+TI05body == I05body(pol, inp, out)
+
+\* the attribute properties on the real result of every sanitizeAttrs call
+TagChecked == CheckAttrs /\ last.n # "" /\ ~pol.unsafe
+TI02 == TagChecked => I02(pol, last.n, last.as, last.res)
+TI03 == TagChecked => I03(pol, last.n, last.res)
+TI10 == TagChecked => I10(pol, last.n, last.res)
+TI11 == TagChecked => I11(pol, last.n, last.res)
+TI12 == TagChecked => I12(pol, last.n, last.res)
+TI07attrs == TagChecked => I07attrs(pol, last.n, last.as, last.res)
 =============================================================================
